@@ -20,8 +20,8 @@ pub fn spec() -> PropSpec {
         ],
         run,
         replay,
-        describe_wal: None,
-        run_wal: None,
+        describe_wal: Some(progx::wal_describe),
+        run_wal: Some(progx::wal_run),
         both_profiles: false,
         workers: 0,
     }
